@@ -59,6 +59,7 @@ F64 = dict(
         fn("exp", FE),
         fn("inv", FE),
         fn("div", "Div for BaseElement"),
+        dict(kind="fn", name="exp_vartime", header="trait FieldElement*", role="method", file="math/src/field/traits.rs", out="f64_exp_vartime"),
         const("MODULUS", SF), const("MODULUS_BITS", SF), const("GENERATOR", SF),
         const("TWO_ADICITY", SF), const("TWO_ADIC_ROOT_OF_UNITY", SF),
         fn("try_from", "TryFrom < u64 > for BaseElement", out="f64_try_from_u64", **{"as": "try_from_u64"}),
@@ -75,4 +76,125 @@ F64 = dict(
     ],
 )
 
-UNITS = [F64]
+F62 = dict(
+    module="F62", prefix="f62", file="math/src/field/f62/mod.rs", inner=U(64), posint=U(64),
+    guards=TRAIT_GUARDS, defaults={"square": _sq, "cube": _cube},
+    items=[
+        const("M"), const("R2"), const("R3"), const("U"), const("G"),
+        fn("add", role="free", out="f62_fn_add"),
+        fn("sub", role="free", out="f62_fn_sub"),
+        fn("mul", role="free", out="f62_fn_mul"),
+        fn("normalize", role="free"),
+        fn("inv", role="free", out="f62_fn_inv"),
+        fn("new", "BaseElement"),
+        fn("as_int", SF),
+        fn("eq", "PartialEq for BaseElement"),
+        fn("add", "Add for BaseElement"),
+        fn("sub", "Sub for BaseElement"),
+        fn("mul", "Mul for BaseElement"),
+        fn("neg", "Neg for BaseElement"),
+        const("ZERO", FE), const("ONE", FE),
+        fn("double", FE),
+        fn("exp", FE),
+        fn("inv", FE),
+        fn("div", "Div for BaseElement"),
+        const("MODULUS", SF), const("MODULUS_BITS", SF), const("GENERATOR", SF),
+        const("TWO_ADICITY", SF), const("TWO_ADIC_ROOT_OF_UNITY", SF),
+        fn("try_from", "TryFrom < u64 > for BaseElement", out="f62_try_from_u64", **{"as": "try_from_u64"}),
+        fn("try_from", "TryFrom < u128 > for BaseElement", out="f62_try_from_u128", **{"as": "try_from_u128"}),
+        fn("mul", "ExtensibleField < 2 > for BaseElement", role="ring", out="f62_ext2_mul"),
+        fn("mul_base", "ExtensibleField < 2 > for BaseElement", role="ring", out="f62_ext2_mul_base"),
+        fn("frobenius", "ExtensibleField < 2 > for BaseElement", role="ring", out="f62_ext2_frobenius"),
+        fn("mul", "ExtensibleField < 3 > for BaseElement", role="ring", out="f62_ext3_mul"),
+        fn("mul_base", "ExtensibleField < 3 > for BaseElement", role="ring", out="f62_ext3_mul_base"),
+        fn("frobenius", "ExtensibleField < 3 > for BaseElement", role="ring", out="f62_ext3_frobenius"),
+    ],
+)
+
+EXPV = dict(kind="fn", name="exp_vartime", header="trait FieldElement*", role="method", file="math/src/field/traits.rs")
+
+F128 = dict(
+    module="F128", prefix="f128", file="math/src/field/f128/mod.rs", inner=U(128), posint=U(128),
+    guards=TRAIT_GUARDS + [("math/src/field/traits.rs", "fn exp(self, power: Self::PositiveInteger) -> Self { self.exp_vartime(power) }"),
+                           ("math/src/field/f128/mod.rs", "#[derive(Copy, Clone, PartialEq, Eq, Default)] #[cfg_attr(feature = \"serde\", derive(Deserialize, Serialize))] #[cfg_attr(feature = \"serde\", serde(transparent))] pub struct BaseElement(u128);")],
+    defaults={"square": _sq, "cube": _cube, "double": _dbl},
+    items=[
+        const("M"), const("G"),
+        fn("add64_with_carry", role="free"),
+        fn("add_192x192", role="free"),
+        fn("sub_192x192", role="free"),
+        fn("sub_modulus", role="free"),
+        fn("mul_by_modulus", role="free"),
+        fn("mul_reduce", role="free"),
+        fn("mul_128x64", role="free"),
+        fn("add", role="free", out="f128_fn_add"),
+        fn("sub", role="free", out="f128_fn_sub"),
+        fn("mul", role="free", out="f128_fn_mul"),
+        fn("inv", role="free", out="f128_fn_inv", litdef=U(64)),
+        fn("new", "BaseElement"),
+        fn("as_int", SF),
+        fn("add", "Add for BaseElement"),
+        fn("sub", "Sub for BaseElement"),
+        fn("mul", "Mul for BaseElement"),
+        fn("neg", "Neg for BaseElement"),
+        const("ZERO", FE), const("ONE", FE),
+        dict(raw="Definition f128_eq (a b : Z) : bool := Z.eqb a b.  (* #[derive(PartialEq)] on BaseElement(u128) *)",
+             register=("eq", "f128_eq", [("self", ("elem",)), ("other", ("elem",))], ("bool",))),
+        fn("inv", FE),
+        fn("div", "Div for BaseElement"),
+        dict(EXPV, out="f128_exp"),
+        const("MODULUS", SF), const("MODULUS_BITS", SF), const("GENERATOR", SF),
+        const("TWO_ADICITY", SF), const("TWO_ADIC_ROOT_OF_UNITY", SF),
+        fn("try_from", "TryFrom < u128 > for BaseElement", out="f128_try_from_u128", **{"as": "try_from_u128"}),
+        fn("mul", "ExtensibleField < 2 > for BaseElement", role="ring", out="f128_ext2_mul"),
+        fn("mul_base", "ExtensibleField < 2 > for BaseElement", role="ring", out="f128_ext2_mul_base"),
+        fn("frobenius", "ExtensibleField < 2 > for BaseElement", role="ring", out="f128_ext2_frobenius"),
+    ],
+)
+
+UNITS = [F64, F62, F128]
+
+# ---------------------------------------------------------------------------------------------
+# C18 BEGIN (owner: C18 worker) -- security estimate: air/src/proof/mod.rs get_conjectured_security.
+# `&ProofOptions` is an opaque struct parameter: its accessors are the Gallina projections declared
+# in the raw block below, and the source guards pin the Rust accessor bodies they stand for.
+_SEC_RAW = """(* ProofOptions / FieldExtension of air/src/options.rs: fields are u8 in Rust (guarded), the
+   accessors widen them losslessly (`self.x as usize` / `as u32`). *)
+Inductive FieldExtension : Set := FeNone | FeQuadratic | FeCubic.
+Definition fe_degree (e : FieldExtension) : Z :=
+  match e with FeNone => 1 | FeQuadratic => 2 | FeCubic => 3 end.
+Record ProofOptions : Set := mkProofOptions {
+  po_num_queries : Z; po_blowup_factor : Z; po_grinding_factor : Z; po_field_extension : FieldExtension;
+  po_fri_folding_factor : Z; po_fri_remainder_max_degree : Z }.
+"""
+
+_OPT = "air/src/options.rs"
+SECURITY = dict(
+    module="Security", prefix="sec", file="air/src/proof/mod.rs",
+    structs={
+        "ProofOptions": {"gtype": "ProofOptions", "methods": {
+            "num_queries": ("po_num_queries", U(64)),
+            "blowup_factor": ("po_blowup_factor", U(64)),
+            "grinding_factor": ("po_grinding_factor", U(32)),
+            "field_extension": ("po_field_extension", "FieldExtension"),
+        }},
+        "FieldExtension": {"gtype": "FieldExtension", "methods": {"degree": ("fe_degree", U(32))}},
+    },
+    guards=[
+        (_OPT, "pub struct ProofOptions { num_queries: u8, blowup_factor: u8, grinding_factor: u8, field_extension: FieldExtension, fri_folding_factor: u8, fri_remainder_max_degree: u8, }"),
+        (_OPT, "pub const fn num_queries(&self) -> usize { self.num_queries as usize }"),
+        (_OPT, "pub const fn blowup_factor(&self) -> usize { self.blowup_factor as usize }"),
+        (_OPT, "pub const fn grinding_factor(&self) -> u32 { self.grinding_factor as u32 }"),
+        (_OPT, "pub const fn field_extension(&self) -> FieldExtension { self.field_extension }"),
+        (_OPT, "pub const fn degree(&self) -> u32 { match self { Self::None => 1, Self::Quadratic => 2, Self::Cubic => 3, } }"),
+        ("air/src/proof/mod.rs", "get_conjectured_security( self.context.options(), self.context.num_modulus_bits(), self.trace_info().length(), H::COLLISION_RESISTANCE, )"),
+    ],
+    items=[
+        dict(raw=_SEC_RAW),
+        const("GRINDING_CONTRIBUTION_FLOOR"), const("MAX_PROXIMITY_PARAMETER"),
+        fn("get_conjectured_security", role="free"),
+    ],
+)
+UNITS.append(SECURITY)
+# C18 END
+# ---------------------------------------------------------------------------------------------
